@@ -29,11 +29,17 @@ func staticChecks(w *World, id string) []*FuncResult {
 	out := atomicChecks(w, id)
 	for _, k := range sortedKeys(w.specs.Funcs) {
 		sp := w.specs.Funcs[k]
-		if sp.Ext || !hasProp(sp.Props, id) || len(sp.Borrows) == 0 {
+		if sp.Ext || !hasProp(sp.Props, id) || (len(sp.Borrows) == 0 && len(sp.NoReads) == 0) {
 			continue
 		}
 		fn := w.FindFunc(sp.Key)
 		if fn == nil {
+			continue
+		}
+		if len(sp.NoReads) > 0 {
+			out = append(out, noReadCheck(w, fn, sp))
+		}
+		if len(sp.Borrows) == 0 {
 			continue
 		}
 		res := &FuncResult{Key: sp.Key + " (borrow check)", Fn: shortFn(fn), Hash: w.funcSourceHash(fn), Mode: "cfg"}
@@ -43,6 +49,62 @@ func staticChecks(w *World, id string) []*FuncResult {
 		out = append(out, res)
 	}
 	return out
+}
+
+// noReadCheck: `noread T.f`: no instruction of the function (its closures included) takes the address of,
+// or extracts, field f of a T. A frame on reads: the result cannot depend on that field.
+func noReadCheck(w *World, fn *ssa.Function, sp *FuncSpec) *FuncResult {
+	res := &FuncResult{Key: sp.Key + " (read frame)", Fn: shortFn(fn), Hash: w.funcSourceHash(fn), Mode: "cfg"}
+	vc := NewVC(Mode{})
+	var fns []*ssa.Function
+	var walk func(f *ssa.Function)
+	walk = func(f *ssa.Function) {
+		fns = append(fns, f)
+		for _, a := range f.AnonFuncs {
+			walk(a)
+		}
+	}
+	walk(fn)
+	for _, nr := range sp.NoReads {
+		parts := strings.SplitN(nr, ".", 2)
+		var sites []string
+		fieldOf := func(t types.Type, idx int) (string, string) {
+			if p, ok := t.Underlying().(*types.Pointer); ok {
+				t = p.Elem()
+			}
+			tn := ""
+			if n, ok := t.(*types.Named); ok {
+				tn = n.Obj().Name()
+			}
+			if st, ok := t.Underlying().(*types.Struct); ok && idx < st.NumFields() {
+				return tn, st.Field(idx).Name()
+			}
+			return tn, ""
+		}
+		for _, f := range fns {
+			for _, b := range f.Blocks {
+				for _, in := range b.Instrs {
+					var tn, fld string
+					switch i := in.(type) {
+					case *ssa.FieldAddr:
+						tn, fld = fieldOf(i.X.Type(), i.Field)
+					case *ssa.Field:
+						tn, fld = fieldOf(i.X.Type(), i.Field)
+					}
+					if tn == parts[0] && fld == parts[1] {
+						sites = append(sites, w.prog.Fset.Position(in.Pos()).String())
+					}
+				}
+			}
+		}
+		o := &Obligation{Name: fmt.Sprintf("%s#noread:%s is not read", shortFn(fn), nr), Fn: shortFn(fn), Kind: "static", VC: vc, Props: sp.Props, Solver: "cfg", Status: "discharged", RootKey: sp.Key}
+		if len(sites) > 0 {
+			o.Status = "refuted"
+			o.Model = "field read at " + strings.Join(sites, ", ")
+		}
+		res.Obls = append(res.Obls, o)
+	}
+	return res
 }
 
 func borrowCheck(w *World, fn *ssa.Function, sp *FuncSpec, src, rel string) []*Obligation {
